@@ -9,6 +9,7 @@ what makes an accepting run evidence for the property rather than for the checke
 That `WF` holds after EVERY history and crash is decided by running the checker on the images
 of sampled histories (labelled PARTIAL): the block-level operations are not modelled.
 -/
+import GoNfsd.Gen.Skeleton
 import GoNfsd.Lemmas.InodeTable
 import GoNfsd.Props.C10
 import GoNfsd.Lemmas.DirData
@@ -533,5 +534,13 @@ theorem writing_one_inode_changes_no_other (d : Disk) (fs : FsSuper) (i : Nat) (
   exact ⟨h1, h2, fun b o hb => write_leaves_other_blocks d fs i _ hi b hb o⟩
 
 end inodetable
+
+/-- "Every block in use is marked in use" also under concurrency: bitmap updates reach the journal
+    as single bits, each owned by the transaction that holds the number (regenerated table; see
+    `Props/C10.journal_objects_have_the_granularity_of_their_locks`). -/
+theorem bitmap_updates_are_single_bits :
+    ∀ e ∈ GoNfsd.Gen.Skeleton.journalObjects, e.1 = "alloctxn.WriteBits" → e.2.1 = "OverWrite" ∧ e.2.2 = "1" := by decide
+
+example : ("alloctxn.WriteBits", "OverWrite", "1") ∈ GoNfsd.Gen.Skeleton.journalObjects := by decide
 
 end GoNfsd.Props.C04
